@@ -169,40 +169,52 @@ def expected_bytes(pem, ktype):
 
 
 def check_c(text, want, opts):
-    """-> list[(mechanism, text)]"""
+    """what the property states, not the exact spelling of the declarations: the initializer of the array named by the
+    options holds exactly the public key bytes; unless --no-length, a variable with the configured name is initialised
+    with sizeof(<array>) or with the literal number of bytes; header and footer text are carried through.
+    -> list[(mechanism, text)]"""
     v = []
-    canon = re.sub(r"\s+", "", text)
-    const = "" if opts["no_const"] else "const"
-    head = re.sub(r"\s+", "", opts["header"]) if opts["header"] else ""
-    foot = re.sub(r"\s+", "", opts["footer"]) if opts["footer"] else ""
-    arr_open = f"{const}{opts['array_type']}{opts['array_name']}[]={{".replace(" ", "")
-    if not canon.startswith(head + arr_open):
-        return [("convert-declaration", f"file does not start with the expected declaration {arr_open!r}: "
-                 f"{canon[:80]!r}")]
-    rest = canon[len(head) + len(arr_open):]
-    end = rest.find("};")
-    if end < 0:
-        return [("convert-declaration", "array is not closed with };")]
-    body = rest[:end]
-    toks = body.split(",") if body else []
-    if any(not re.fullmatch(r"0x[0-9a-fA-F]{2}", t) for t in toks):
-        return [("convert-array-syntax", f"array body is not a comma separated list of 0xNN literals: {body[:60]!r}")]
-    got = bytes(int(t, 16) for t in toks)
+    body_text = text
+    if opts["header"] and opts["header"].strip() not in text:
+        v.append(("convert-header-lost", "header file content is not in the output"))
+    if opts["footer"] and opts["footer"].strip() not in text:
+        v.append(("convert-footer-lost", "footer file content is not in the output"))
+    m = re.search(r"\b" + re.escape(opts["array_name"]) + r"\s*\[\s*(\d*)\s*\]\s*=\s*\{([^}]*)\}\s*;", body_text)
+    if not m:
+        return v + [("convert-declaration", f"no initialised array named {opts['array_name']!r} in the output: "
+                     f"{text[:120]!r}")]
+    decl_start = text.rfind("\n", 0, m.start()) + 1
+    if opts["array_type"] not in text[decl_start:m.start()]:
+        v.append(("convert-declaration", f"array is not declared with type {opts['array_type']!r}"))
+    toks = [t.strip() for t in m.group(2).split(",")]
+    if toks and toks[-1] == "":
+        toks = toks[:-1]          # a trailing comma is legal C
+    if any(not re.fullmatch(r"0[xX][0-9a-fA-F]{1,2}|\d{1,3}", t) for t in toks):
+        return v + [("convert-array-syntax", f"array initializer is not a list of byte literals: {m.group(2)[:60]!r}")]
+    got = bytes(int(t, 0) for t in toks)
     if got != want:
         if len(got) != len(want):
             v.append(("convert-key-length", f"array has {len(got)} bytes, the public key has {len(want)}"))
         else:
             v.append(("convert-key-bytes", f"array bytes differ from the public key: {got.hex()[:40]} vs "
                       f"{want.hex()[:40]}"))
-    tail = rest[end + 2:]
+    if m.group(1) and int(m.group(1)) != len(want):
+        v.append(("convert-key-length", f"declared array size {m.group(1)} != {len(want)}"))
+    lm = re.search(r"\b" + re.escape(opts["length_name"]) + r"\s*=\s*([^;]*);", text[m.end():])
     if opts["no_length"]:
-        want_tail = foot
+        if lm and opts["length_name"] != opts["array_name"]:
+            v.append(("convert-length-declaration", "--no-length was given but a length variable is emitted"))
+    elif not lm:
+        v.append(("convert-length-declaration", f"no length variable {opts['length_name']!r} after the array"))
     else:
-        cast = "" if opts["length_type"] == "size_t" else f"({opts['length_type']})"
-        want_tail = f"{const}{opts['length_type']}{opts['length_name']}={cast}sizeof({opts['array_name']});" \
-            .replace(" ", "") + foot
-    if tail != want_tail:
-        v.append(("convert-length-declaration", f"text after the array is {tail[:80]!r}, expected {want_tail[:80]!r}"))
+        rhs = re.sub(r"\s+", "", lm.group(1))
+        rhs = re.sub(r"^\([^)]*\)", "", rhs)          # an optional cast
+        ok = rhs in (f"sizeof({opts['array_name']})", f"sizeof{opts['array_name']}", str(len(want)),
+                     f"{len(want)}u", f"{len(want)}U") or \
+            rhs == f"sizeof({opts['array_name']})/sizeof({opts['array_name']}[0])"
+        if not ok:
+            v.append(("convert-length-declaration", f"length variable is initialised with {lm.group(1).strip()!r}, "
+                      f"neither sizeof({opts['array_name']}) nor {len(want)}"))
     return v
 
 
